@@ -625,6 +625,11 @@ func (x *Exec) sliceContentEq(env *Env, a, b TV) *Term {
 }
 
 func (x *Exec) compileField(env *Env, e *SField) Value {
+	if id, ok := e.X.(*SIdent); ok {
+		if v, ok := x.qualifiedGlobal(env, id.Name, e.Name); ok {
+			return v
+		}
+	}
 	base := x.compile(env, e.X)
 	tv, ok := base.(TV)
 	if !ok {
@@ -1100,4 +1105,36 @@ func (x *Exec) callSpecFunc(env *Env, sf *SpecFunc, e *SCall) Value {
 	v := x.compile(ch, sf.Body)
 	ch.clause = save
 	return v
+}
+
+// qualifiedGlobal resolves pkg.Name to a package-level variable or constant of an
+// imported package — unless pkg names a variable in scope.
+func (x *Exec) qualifiedGlobal(env *Env, pkgName, name string) (Value, bool) {
+	if _, ok := env.bound[pkgName]; ok {
+		return nil, false
+	}
+	if env.vars != nil {
+		if _, ok := env.vars[pkgName]; ok {
+			return nil, false
+		}
+	}
+	if env.lookup != nil {
+		if _, ok := env.lookup(pkgName); ok {
+			return nil, false
+		}
+	}
+	for _, p := range x.v.prog.AllPackages() {
+		if p.Pkg.Name() != pkgName {
+			continue
+		}
+		switch m := p.Members[name].(type) {
+		case *ssa.Global:
+			ptr := x.globalPtr(m)
+			elem := m.Type().Underlying().(*types.Pointer).Elem()
+			return TV{x.specHeapRead(env, elem, Sel("p-ref", ptr), IntLit(0)), elem}, true
+		case *ssa.NamedConst:
+			return x.constValue(m.Value), true
+		}
+	}
+	return nil, false
 }
